@@ -200,7 +200,7 @@ def run(m: Model, r: Report, tier: str) -> None:
                 any(m.mtext(fn, x) == "_L = _L" for x in ifs_[0].body) and \
                 any(m.has(fn, "self.result.append(int(session))", x) for x in ifs_[0].body) and \
                 m.has(fn, "self.db_handler.insert_session_transition(session, res['stack'])", ifs_[0]) and \
-                ast.unparse(rep_loops[0].test).replace(" ", "") == f"len({POS})>0"
+                ast.unparse(rep_loops[0].test).replace(" ", "") in (f"len({POS})>0", POS)
     r.check(okr, "R4", f"{fn.qualname}#report-each-found-session-once",
             "every session with a positive result must be appended to the result exactly once (and stored with its stack)", loc=fn.loc)
 
